@@ -251,6 +251,15 @@ func (P *Program) VerifyFunc(fn *ssa.Function, fc *FuncContract) *FuncResult {
 		fr := s.newFrame(fn, 0)
 		fr.isTop = true
 		env := s.newEnv(fn.Pkg.Pkg)
+		env.alias = P.aliasFor(fn)
+		if len(env.alias) > 0 {
+			var rn []string
+			for o, n := range env.alias {
+				rn = append(rn, o+"->"+strings.Join(n, "|"))
+			}
+			sort.Strings(rn)
+			s.note("%s: contract names resolved through renamed source names: %s", FuncKey(fn), strings.Join(rn, ", "))
+		}
 		env.st, env.old = s.entry, s.entry
 		hasRecv := fn.Signature.Recv() != nil
 		for i, p := range fn.Params {
